@@ -503,6 +503,36 @@ def rule_r6(chk, prog):
     return
 
 
+def rule_r7(chk, prog):
+    chk.rule('C07.R7', 'the file handed to the command holds exactly the '
+             'rendering of the candidate: it is opened afresh for writing '
+             '(truncated) by the writer and closed before the writer returns')
+    m = prog.mod('nodeio')
+    f = m.func('write_smtlib_for_checking')
+    where = 'nodeio.write_smtlib_for_checking'
+    fname = params_of(f)[0]
+    opens = [c for c in calls_in(f) if call_name(c) in ('open', 'io.open')]
+    ok = len(opens) == 1
+    why = f'{len(opens)} open() calls'
+    if ok:
+        c = opens[0]
+        mode = c.args[1] if len(c.args) > 1 else kw(c, 'mode')
+        in_with = isinstance(getattr(c, '_parent', None), ast.withitem)
+        ok = bool(c.args) and unparse(c.args[0]) == fname and isinstance(
+            mode, ast.Constant) and str(mode.value).startswith('w') and \
+            in_with
+        why = (f'open({unparse(c.args[0]) if c.args else "?"}, '
+               f'{unparse(mode) if mode is not None else "<default r>"})'
+               + ('' if in_with else ' outside a with-statement'))
+    chk.check('C07.R7', where, 'candidate file opened afresh and closed',
+              ok, f'the candidate file is not written through "with '
+              f'open({fname}, \'w\')" ({why}): a handle that is kept open '
+              'and rewound is not truncated, so a candidate that renders '
+              'shorter than the previous one is followed by the tail of the '
+              'older text; an unclosed handle may not have flushed when the '
+              'command starts', loc=m.loc(f), nontrivial=True)
+
+
 def rule_r5(chk, prog):
     chk.rule('C07.R5', 'writer/reader alphabet agreement: separators the '
              'writers emit are white space of the reader; the comment '
@@ -562,6 +592,7 @@ def run(tier):
     chk.guard(rule_callers, chk, prog)
     chk.guard(rule_r5, chk, prog)
     chk.guard(rule_r6, chk, prog)
+    chk.guard(rule_r7, chk, prog)
     extra = None
     if tier == 'thorough':
         from .. import selftest
